@@ -118,6 +118,12 @@ def trie_request(types, pats):
         ops.append("C" + ",".join(p))
     for p in pats:
         ops.append("S" + ",".join(p))
+    # the same questions to a copy of the store (alias_trie.Copy: the aliases a generic function sees when it is instantiated)
+    ops.append("Y")
+    for p in pats:
+        ops.append("C" + ",".join(p))
+    for p in pats:
+        ops.append("S" + ",".join(p))
     return "trie %s %s" % (types, ";".join(ops))
 
 
@@ -268,6 +274,8 @@ def check(res, tier):
                 if not s.startswith("vals") or str(want) not in s[5:].split(","):
                     bad = "searching the declared pattern %s does not return its alias: '%s'" % (",".join(p), s)
                     break
+            if not bad and len(ans) >= 5 * n + 1 and ans[n:3 * n] != ans[3 * n + 1:5 * n + 1]:
+                bad = "a copy of the alias store answers differently from the store it was copied from: %s vs %s" % (ans[3 * n + 1:5 * n + 1], ans[n:3 * n])
             if bad:
                 if lookalike(types, pats):
                     fp = "lookalike-placeholder-types"
